@@ -52,6 +52,13 @@ def apply_edits(root, edits):
             except OSError:
                 return False
         s = staged[p]
+        if "regex" in e:
+            import re as _re
+            s2, n = _re.subn(e["regex"], e["sub"], s)
+            if n == 0:
+                return False
+            staged[p] = s2
+            continue
         if e["old"] not in s:
             return False
         if e.get("all"):
@@ -123,7 +130,54 @@ def run(pids, only=None, verbose=True):
     return results
 
 
+def run_benign(verbose=True):
+    """behaviour-preserving edits (renames, reordering, logging): NO property may report anything"""
+    sys.path.insert(0, VERIF)
+    with open(os.path.join(VERIF, "mutants", "benign.json")) as f:
+        items = json.load(f)
+    pids = sorted(f[:-3] for f in os.listdir(os.path.join(VERIF, "rules")) if f.startswith("C") and f.endswith(".py"))
+    out = []
+    for m in items:
+        d = make_scratch(extract.REPO)
+        try:
+            if not apply_edits(d, m["edits"]):
+                out.append({"benign": m["name"], "status": "skipped", "why": "edit no longer applies"})
+                continue
+            try:
+                facts, meta = extract.extract("lib", repo=d, cache=False)
+            except RuntimeError as e:
+                out.append({"benign": m["name"], "status": "skipped", "why": "does not compile: " + str(e)[-200:]})
+                continue
+            alarms = []
+            for pid in pids:
+                mod = importlib.import_module("rules." + pid)
+                for f in facts:
+                    if f["crate"] != "feoxdb":
+                        continue
+                    ctx = Ctx(Program(f), pid, "lib")
+                    try:
+                        mod.check(ctx)
+                    except Exception:
+                        import traceback
+                        ctx.fail("engine", "internal", "-", traceback.format_exc()[-300:])
+                    alarms += [f2.key() for f2 in ctx.findings]
+            out.append({"benign": m["name"], "status": "quiet" if not alarms else "FALSE-ALARM", "alarms": alarms[:8]})
+        finally:
+            th = extract.tree_hash(d)
+            shutil.rmtree(d, ignore_errors=True)
+            shutil.rmtree(os.path.join(extract.CACHE, "facts", th), ignore_errors=True)
+        if verbose:
+            r = out[-1]
+            print("%-44s %-12s %s" % (r["benign"], r["status"], "; ".join(r.get("alarms", [])[:3])[:400] or r.get("why", "")))
+    return out
+
+
 if __name__ == "__main__":
+    if "--benign" in sys.argv:
+        res = run_benign()
+        bad = [r for r in res if r["status"] == "FALSE-ALARM"]
+        print("benign edits: %d quiet, %d false alarms, %d skipped" % (sum(r["status"] == "quiet" for r in res), len(bad), sum(r["status"] == "skipped" for r in res)))
+        sys.exit(1 if bad else 0)
     args = [a for a in sys.argv[1:] if not a.startswith("--")]
     only = None
     if "--only" in sys.argv:
